@@ -62,6 +62,7 @@ func c03Run(c c03Case) (accepted bool, observers int, f *obs.Fail) {
 			return true, 1, nil
 		}
 		es := observeV4(p, true)
+		es = append(es, observeAgain(p)...)
 		return true, len(es), walkFail(es)
 	case "v4opts":
 		o := dhcpv4.Options{}
@@ -119,6 +120,7 @@ func c03Run(c c03Case) (accepted bool, observers int, f *obs.Fail) {
 			return true, 1, nil
 		}
 		es := observeV6(d, true)
+		es = append(es, observeAgain(d)...)
 		return true, len(es), walkFail(es)
 	case "v6opt":
 		if len(c.B) < 2 {
@@ -513,7 +515,18 @@ func TestC03_Truncations(t *testing.T) {
 // carrier option, on plain and relay-encapsulated messages; netboot conversations of every type subset.
 func TestC03_HelperMatrix(t *testing.T) {
 	ents := [][]byte{{0, 0, 4, 0xf7}, {0, 0, 0x81, 0x19}, {0, 0, 0, 9}, {0, 0, 0x75, 0x6a}, {0, 0, 0x0a, 0x4c}, {0, 0, 0, 0}}
-	for _, s := range ztpDict() {
+	dict := ztpDict()
+	if os.Getenv("VERIF_TIER") != "thorough" {
+		// quick tier: the hand-written strings, every harvested literal as it is, and every third continuation
+		var sub []string
+		for i, s := range dict {
+			if i < len(ztpStrings) || i%3 == 0 || !strings.ContainsAny(s[len(s)-1:], "abcde") {
+				sub = append(sub, s)
+			}
+		}
+		dict = sub
+	}
+	for _, s := range dict {
 		for _, ent := range ents {
 			vc := append(append([]byte{0, 16, 0, byte(6 + len(s))}, ent...), 0, byte(len(s)))
 			vc = append(vc, s...)
